@@ -3,6 +3,7 @@
 package proxy
 
 import (
+	"fmt"
 	"reflect"
 	"unsafe"
 
@@ -29,13 +30,13 @@ func Interface(ifaceVar interface{}, ctx *iface.IContext, method string, imp int
 		return erro.NewIllegalParamTypeError("interface Var", typ.String(), "interface")
 	}
 
-	// check args len match
-	argLen := reflect.TypeOf(imp).NumIn()
-	funcTabIndex := methodIndexOf(typ, method)
-	maxLen := typ.Method(funcTabIndex).Type.NumIn()
-	if maxLen >= argLen {
-		cause := erro.NewArgsNotMatchError(imp, argLen, maxLen+1)
-		return erro.NewIllegalParamCError("interface As()", reflect.ValueOf(imp).String(), cause)
+	funcTabIndex, found := methodIndexOf(typ, method)
+	if !found {
+		return erro.NewIllegalParamError("interface method", method)
+	}
+	// check signature match: imp 的第一个参数是 *IContext, 其余参数和返回值需要和接口方法逐个对齐
+	if err := checkInterfaceImp(imp, typ.Method(funcTabIndex).Type); err != nil {
+		return err
 	}
 
 	// 首次调用备份 iface
@@ -60,16 +61,39 @@ func Interface(ifaceVar interface{}, ctx *iface.IContext, method string, imp int
 	return nil
 }
 
-func methodIndexOf(typ reflect.Type, method string) int {
-	funcTabIndex := 0
-	// 根据方法名称获取到方法的 index
+// methodIndexOf 根据方法名称获取到方法的 index, 找不到时 found 为 false
+func methodIndexOf(typ reflect.Type, method string) (index int, found bool) {
 	for i := 0; i < typ.NumMethod(); i++ {
 		if method == typ.Method(i).Name {
-			funcTabIndex = i
-			break
+			return i, true
 		}
 	}
-	return funcTabIndex
+	return 0, false
+}
+
+// checkInterfaceImp 检测 imp(第一个参数为 *IContext)的参数、返回值的个数和内存大小是否和接口方法 methodType 一致
+func checkInterfaceImp(imp interface{}, methodType reflect.Type) error {
+	impType := reflect.TypeOf(imp)
+	illegal := func(cause error) error {
+		return erro.NewIllegalParamCError("interface As()", reflect.ValueOf(imp).String(), cause)
+	}
+	if impType.NumIn() != methodType.NumIn()+1 {
+		return illegal(erro.NewArgsNotMatchError(imp, impType.NumIn(), methodType.NumIn()+1))
+	}
+	if impType.NumOut() != methodType.NumOut() {
+		return illegal(erro.NewReturnsNotMatchError(imp, impType.NumOut(), methodType.NumOut()))
+	}
+	for i := 0; i < methodType.NumIn(); i++ {
+		if impType.In(i+1).Size() != methodType.In(i).Size() {
+			return illegal(fmt.Errorf("args %d's size must:%d, actual:%d", i+1, methodType.In(i).Size(), impType.In(i+1).Size()))
+		}
+	}
+	for i := 0; i < methodType.NumOut(); i++ {
+		if impType.Out(i).Size() != methodType.Out(i).Size() {
+			return illegal(fmt.Errorf("returns %d's size must:%d, actual:%d", i, methodType.Out(i).Size(), impType.Out(i).Size()))
+		}
+	}
+	return nil
 }
 
 // applyIfaceTo 应用到变量
